@@ -920,15 +920,14 @@ func (c *e2Case) e2Outs(t *rapid.T, pos string, ty mrogen.Ty, want, got any, nes
 		}
 		if !c.tokensWritten[tok] {
 			kind = "never"
-		} else if (kind == "dir") != c.tokensDir[tok] {
-			// what is on disk was decided by the type at the producer (a
-			// string output that a struct conversion turns into a path was
-			// written as a file, not as a directory)
-			if c.tokensDir[tok] {
-				kind = "dir"
-			} else {
-				kind = "file"
-			}
+		} else if c.tokensDir[tok] {
+			kind = "dir"
+		} else if kind == "dir" || kind == "never" {
+			// what is on disk was decided by the type at the producer: a
+			// string output that a struct conversion turns into a file or
+			// path was written as a plain file, whatever the token would
+			// have meant for an output declared as file or path
+			kind = "file"
 		}
 		if kind == "never" {
 			if got != nil {
